@@ -154,6 +154,12 @@ def check(case, rec):
         kw["group_weights"] = [float(x) for x in w]
         if case.get("weights_as") == "float64_array":
             kw["group_weights"] = np.array(kw["group_weights"], dtype=np.float64)   # one object, reused by the entropy call below
+        elif case.get("weights_as") == "series_default":
+            kw["group_weights"] = pd.Series(kw["group_weights"])                    # array-like: taken by position, whatever its labels
+        elif case.get("weights_as") == "series_labelled":
+            kw["group_weights"] = pd.Series(kw["group_weights"], index=[f"w{i}" for i in range(len(w))][::-1])
+        elif case.get("weights_as") == "tuple":
+            kw["group_weights"] = tuple(kw["group_weights"])
     got = call("pc_conditional", pyrepseq.pc_conditional, df, by_arg, on, **kw)
     if not close(got, want, 1e-12):
         raise Violation("pc_conditional", f"by={by_arg} on={on} weights={kw.get('group_weights')}: got {got!r}, want {want!r}")
@@ -324,7 +330,7 @@ def table_case(draw, tier="quick"):
             "maxseqs_noop": draw(st.booleans()), "by_name_contains_features": draw(st.booleans())}
     if draw(st.booleans()):
         case["weights"] = draw(st.lists(st.sampled_from([0.5, 1, 2, 3, 1.25, 10]), min_size=6, max_size=12))
-        case["weights_as"] = draw(st.sampled_from(["list", "float64_array"]))
+        case["weights_as"] = draw(st.sampled_from(["list", "float64_array", "series_default", "series_labelled", "tuple"]))
     if draw(st.booleans()):
         case["base"] = draw(st.sampled_from([2.0, math.e, 10.0, 3.5, None, 0.5]))
     return case
